@@ -894,7 +894,8 @@ func invalidate(r *rand.Rand, op model.Op, a *model.Args) {
 			}
 		case 9: // stray entries beside a complete 1..3: never a reason to reject, whatever they hold
 			if p.Segments != nil {
-				p.Segments[pick(r, uint8(0), 4, 255)] = model.Segment{Start: model.HHmm{H: 18, M: 0}, End: model.HHmm{H: 17, M: 0}}
+				p.Segments[pick(r, uint8(0), 4, 255)] = pick(r, model.Segment{Start: model.HHmm{H: 18, M: 0}, End: model.HHmm{H: 17, M: 0}},
+					model.Segment{Start: model.HHmm{H: 8, M: 30}, End: model.HHmm{H: 9, M: 45}})
 			}
 		case 0:
 			p.From.Zero, p.From.ZK = true, r.Intn(4)
@@ -962,9 +963,44 @@ var _ = vnet.Fault{}
 
 // ---- C09: termination and release ---------------------------------------------------------------
 
+// genZeroTimeout: a client configured with a timeout of zero. Nothing can be answered in no time: every call returns
+// at once - it does not wait for ever.
+func genZeroTimeout(b *builder) {
+	r := b.r
+	sc := b.sc
+	b.base(baseOpt{minCtl: 1, maxCtl: 3, maxClients: 2, fixedBind: pick(r, 0, 2)})
+	for i := range sc.Clients {
+		sc.Clients[i].Timeout = 0
+	}
+	nt := 1 + r.Intn(2)
+	for t := 0; t < nt; t++ {
+		tk := engine.Task{}
+		for s := 1 + r.Intn(3); s > 0; s-- {
+			client := r.Intn(len(sc.Clients))
+			op := b.anyOp()
+			serial, known := b.target()
+			a := b.args(op, serial, known)
+			st := engine.Step{Kind: "call", Client: client, Op: op, Args: a}
+			rt := b.route(client, op, serial)
+			if rt.Path == "tcp" {
+				st.Plan.TCP = pick(r, "accept", "accept", "refuse", "blackhole")
+			}
+			if op.HasReply() && op != model.GetDevices && r.Intn(2) == 0 {
+				st.Plan.Emits = append(st.Plan.Emits, b.emit(rt, known, pick(r, 0, 0, 1, time.Millisecond), model.GenReply(r, op, &a, serial, model.ReplyOpts{}), "valid"))
+			}
+			tk.Steps = append(tk.Steps, st)
+		}
+		sc.Tasks = append(sc.Tasks, tk)
+	}
+}
+
 func genC09(b *builder) {
 	r := b.r
 	sc := b.sc
+	if r.Intn(50) == 0 {
+		genZeroTimeout(b)
+		return
+	}
 	queued := r.Intn(3) == 0
 	if queued {
 		b.base(baseOpt{minCtl: 1, maxCtl: 3, maxClients: 2, fixedBind: 2})
@@ -1555,6 +1591,16 @@ func genC08(b *builder) {
 		for _, c := range sc.Clients {
 			if ap, err := netip.ParseAddrPort(c.Bind); err == nil && ap.Port() != 0 {
 				sc.Clients[len(sc.Clients)-1].Bind = fmt.Sprintf("%s.250:%d", b.prefix, ap.Port())
+				break
+			}
+		}
+	}
+	if r.Intn(12) == 0 {
+		// another process sits on the fixed bind port for the whole run: calls from that port fail to bind - and
+		// that is all that happens (no other port is tried, nothing about the client changes)
+		for _, c := range sc.Clients {
+			if ap, err := netip.ParseAddrPort(c.Bind); err == nil && ap.Port() != 0 {
+				sc.Foreign = append(sc.Foreign, vnet.ForeignPort{Proto: "udp", Port: ap.Port()}, vnet.ForeignPort{Proto: "tcp", Port: ap.Port()})
 				break
 			}
 		}
